@@ -69,7 +69,7 @@ func c02() []*Ob {
 					c.Violation("enum:buildEvalTree:types", fn.Pos(), "buildEvalTree does not handle AST value type(s) %v: a valid query fails with 'unknown token type'", missing)
 				}
 				ops := c.P.EnumConsts("parser", "logicalKind")
-				cov := c.P.SwitchCoverageLifted(fn, func(v ssa.Value) bool { return strings.HasSuffix(v.Type().String(), "parser.logicalKind") })
+				cov := c.P.SwitchCoverageLifted(fn, func(v ssa.Value) bool { return strings.HasSuffix(TypeStr(v.Type()), "parser.logicalKind") })
 				var mo []string
 				for n, k := range ops {
 					if !cov[k] {
